@@ -69,6 +69,13 @@ def programs(seed, n):
         progs.append({"id": "c03-%d-%d" % (seed, i), "seed": seed * 1000 + i, "cfg": cfg, "probe": "none",
                       "steps": steps + pre + [cut], "sweep": len(steps) + len(pre),
                       "cut": cut["cmd"] + ("-read-all" if cut.get("read_all") else "")})
+        if i % 3 == 1:
+            # after each failure position: the repository stays in use - a backup that may re-use what the failed command left,
+            # then one of the commands that rewrite the index, then another backup; nothing readable may become unreadable
+            newer = gen.evolve(rng, files)
+            fix = [{"cmd": "repair_index", "read_all": rng.random() < 0.3}] if rng.random() < 0.5 else \
+                [{"cmd": "prune", "opts": gen.prune_opts(rng, kd, allow_instant=False, allow_early=False)}]
+            progs[-1]["after"] = [{"cmd": "backup", "files": newer if rng.random() < 0.6 else files}] + fix + [{"cmd": "backup", "files": gen.evolve(rng, newer)}]
     # directed: the command under test runs on what an interrupted prune left behind - its new index files next to the old ones,
     # so packs are listed normally and with a delete mark at once - after a further backup started to use those packs again
     for k in range(max(12, n // 8)):
@@ -111,7 +118,7 @@ def run(ctx):
     n = 40 if q else 600
     progs = programs(ctx.seed, n)
     by_id = {p["id"]: p for p in progs}
-    recs, r = run_trace(ctx, progs, "main")
+    recs, r = run_trace(ctx, progs, "main", timeout=3000 if q else 20000)
     scen = [e for e in recs if e["e"] == "reset"]
     ctx.traces += len(scen)
     classify(ctx, r, recs, by_id, RELEVANT_STATE, RELEVANT_STEP, "crash/fault safety")
